@@ -2219,6 +2219,29 @@ class Interp(object):
             if all(isinstance(a, int) for a in args):
                 return list(range(*args))
             raise Undecided('range of symbolic bound')
+        if name == 'next':
+            it = args[0]
+            if isinstance(it, PyIter):
+                if it.pos < len(it.items):
+                    it.pos += 1
+                    return it.items[it.pos - 1]
+                if len(args) > 1:
+                    return args[1]
+                raise PyRaise('StopIteration', node)
+            raise Undecided('next(%r)' % (it,))
+        if name == 'groupby':
+            # itertools.groupby: runs of consecutive items with equal keys
+            items = list(self.seq(args[0]))
+            keyf = args[1] if len(args) > 1 else kwargs.get('key')
+            groups = []
+            for it in items:
+                k = it if keyf is None else self.call(keyf, [it], {})
+                if groups and self.truth_value(self.equal(groups[-1][0], k,
+                                                          node), node):
+                    groups[-1][1].append(it)
+                else:
+                    groups.append((k, [it]))
+            return [(k, PyIter(g)) for k, g in groups]
         if name == 'zip':
             seqs = [self.seq(a) for a in args]
             return [tuple(t) for t in zip(*seqs)]
@@ -2456,6 +2479,20 @@ class _Scope(object):
         self.vars[name] = v
 
 
+class PyIter(object):
+    """A Python iterator over known items (result of iter(), of a group of
+    itertools.groupby ...): `next` and loops consume it."""
+
+    def __init__(self, items):
+        self.items = list(items)
+        self.pos = 0
+
+    def model_iter(self):
+        rest = self.items[self.pos:]
+        self.pos = len(self.items)
+        return rest
+
+
 class _Ufuncs(object):
     def __init__(self, interp, v):
         self.interp = interp
@@ -2466,7 +2503,8 @@ _PY_BUILTINS = {'set', 'dict', 'sorted', 'reversed', 'slice', 'round', 'map',
                 'isinstance', 'getattr', 'hasattr', 'len', 'int', 'float',
                 'complex', 'range', 'zip', 'enumerate', 'tuple', 'list',
                 'abs', 'callable', 'type', 'str', 'repr', 'all', 'any',
-                'max', 'min', 'sum', 'bool', 'print', 'iter', 'id'}
+                'max', 'min', 'sum', 'bool', 'print', 'iter', 'id', 'next',
+                'groupby'}
 
 
 class Hooks(object):
